@@ -8,6 +8,7 @@ CONSTANTS
   NoParam <- NoP
   KwVals <- Kw
   MaxOps = 0
+  CtxPairs <- Pairs
   Alphabet <- AllOps
 INVARIANT Final
 CHECK_DEADLOCK FALSE
